@@ -49,7 +49,9 @@ if __name__ == "__main__":  # reference subprocess: make `core` and the implemen
 import core
 
 RULE = ("47 (quick) / ~210 (thorough) histories of <= 12 / <= 40 ops over {reseed, draw, newPoly, divide, get_nodes, get_half_of_hypercube, "
-        "create grid (8 algorithms), 8 getters, gen_grid() again}; grid specifications drawn from a per-run pool concentrated at level boundaries "
+        "create grid (8 algorithms), 8 getters, gen_grid() again}; every argument handed to the package is given in a seed-chosen "
+        "representation (int / np.int64 / np.int32 / np.uint16 / 0-d array; bool / np.bool_ / 0-1; str / run-time built / np.str_ / str "
+        "subclass) plus an exhaustive sweep of all representations over two fixed cases, the expected value never depends on it; grid specifications drawn from a per-run pool concentrated at level boundaries "
         "(12/13, 42/43, 8/9, 26/27, 40/41, 3/4) so that every specification is observed in several histories; a history is "
         "non-trivial when it constructs an object and reads it after the generator state or other objects changed; distinct by "
         "the op list. Prefix sweep: every N up to the bound for ico, cube3D, cube4D against reference polytopes one and two levels up.")
@@ -141,14 +143,121 @@ def time_limit(seconds: float):
             signal.setitimer(signal.ITIMER_REAL, max(0.5, old_delay - (time.time() - t0)))
 
 
+# ------------------------------------------------------------------------------------------------------------------
+# argument representations: the same denoted value handed to the package in another Python / numpy representation.
+# Established on the unchanged tree (every public entry point this harness calls, all algorithms, N < 4 and N >= 4,
+# N larger than what is available): every representation below is accepted and gives bit-identical results / the
+# same exception as the plain Python value.  The model always gets the denoted value.
+# ------------------------------------------------------------------------------------------------------------------
+class StrSub(str):
+    """a str subclass (like a str-mixin Enum member)"""
+
+
+INT_REPS = ("int", "int64", "int32", "uint16", "arr0")
+FLAG_REPS = ("bool", "npbool", "int01")
+STR_REPS = ("str", "built", "npstr", "sub")
+REPS_LEFT_OUT = {"uint16": "only used for 0 <= N <= 65535 (the value must be representable); larger N keep the Python int",
+                 "None": "N=None (all nodes) has no other representation"}
+
+
+def rep_int(v, rep):
+    if v is None or rep in (None, "int"):
+        return v
+    if rep == "int64":
+        return np.int64(v)
+    if rep == "int32":
+        return np.int32(v)
+    if rep == "uint16":
+        return np.uint16(v) if 0 <= v <= 65535 else v
+    if rep == "arr0":
+        return np.array(v)
+    raise core.HarnessError(f"unknown integer representation {rep}")
+
+
+def rep_flag(v, rep):
+    if rep in (None, "bool"):
+        return bool(v)
+    if rep == "npbool":
+        return np.bool_(v)
+    if rep == "int01":
+        return 1 if v else 0
+    raise core.HarnessError(f"unknown flag representation {rep}")
+
+
+def rep_str(v, rep):
+    if rep in (None, "str"):
+        return v
+    if rep == "built":
+        return "".join(list(v))          # built at run time: equal, not the interned literal
+    if rep == "npstr":
+        return np.str_(v)
+    if rep == "sub":
+        return StrSub(v)
+    raise core.HarnessError(f"unknown string representation {rep}")
+
+
+def op_rep(op, field):
+    return (op.get("rep") or {}).get(field)
+
+
+def assign_reps(rng, ops, plain=0.35):
+    """seed-chosen representation of every argument that goes to the package (stored in the op, so replays keep it)"""
+    def pick(fam):
+        return fam[0] if rng.random() < plain else rng.choice(fam)
+    out = []
+    for op in ops:
+        t = op["t"]
+        rep = {}
+        if t in ("nodes", "half"):
+            rep = {"N": pick(INT_REPS), "proj": pick(FLAG_REPS)}
+        elif t in ("grid", "gen"):
+            rep = {"N": pick(INT_REPS), "alg": pick(STR_REPS)}
+        elif t == "get" and op.get("g") in ("array", "upper", "volumes", "volumesApprox"):
+            rep = {"flag": pick(FLAG_REPS)}
+        out.append(dict(op, rep=rep) if rep else dict(op))
+    return out
+
+
+def rep_sweep_histories():
+    """all representation families over two small fixed cases (quick and thorough)"""
+    out = []
+    for ri in INT_REPS:                      # 3-D case: the full product
+        for rs in STR_REPS:
+            for rf in FLAG_REPS:
+                out.append({"r0": [2, 0], "ops": [
+                    {"t": "grid", "alg": "ico", "N": 13, "rep": {"N": ri, "alg": rs}},
+                    {"t": "get", "h": 0, "g": "upper", "rep": {"flag": rf}},
+                    {"t": "get", "h": 0, "g": "volumesApprox", "rep": {"flag": rf}},
+                    {"t": "get", "h": 0, "g": "volumes", "rep": {"flag": rf}},
+                    {"t": "get", "h": 0, "g": "adjacency"},
+                    {"t": "newPoly", "kind": "ico"},
+                    {"t": "nodes", "h": 0, "N": 9, "proj": True, "rep": {"N": ri, "proj": rf}},
+                    {"t": "nodes", "h": 0, "N": 12, "proj": False, "rep": {"N": ri, "proj": rf}}]})
+    k = 0
+    for ri in INT_REPS:                      # 4-D case: every integer x flag representation, strings cycling
+        for rf in FLAG_REPS:
+            rs = STR_REPS[k % len(STR_REPS)]
+            k += 1
+            out.append({"r0": [2, 1], "ops": [
+                {"t": "grid", "alg": "cube4D", "N": 5, "rep": {"N": ri, "alg": rs}},
+                {"t": "get", "h": 0, "g": "upper", "rep": {"flag": rf}},
+                {"t": "get", "h": 0, "g": "array", "rep": {"flag": rf}},
+                {"t": "get", "h": 0, "g": "volumes", "rep": {"flag": rf}},
+                {"t": "get", "h": 0, "g": "adjacency"},
+                {"t": "newPoly", "kind": "cube4D"},
+                {"t": "half", "h": 0, "N": 5, "proj": True, "rep": {"N": ri, "proj": rf}},
+                {"t": "nodes", "h": 0, "N": 11, "proj": False, "rep": {"N": ri, "proj": rf}}]})
+    return out
+
+
 def poly_class(kind):
     from molgri.space import polytopes as P
     return {"ico": P.IcosahedronPolytope, "cube3D": P.Cube3DPolytope, "cube4D": P.Cube4DPolytope}[kind]
 
 
-def factory_create(alg, N):
+def factory_create(alg, N, dim=None):
     from molgri.space.rotobj import SphereGrid3DFactory, SphereGrid4DFactory
-    return (SphereGrid3DFactory if DIM[alg] == 3 else SphereGrid4DFactory).create(alg, N)
+    return (SphereGrid3DFactory if (dim or DIM[alg]) == 3 else SphereGrid4DFactory).create(alg, N)
 
 
 def coo_hash(m) -> str:
@@ -157,17 +266,19 @@ def coo_hash(m) -> str:
               np.asarray(m.data, dtype=np.float64))
 
 
-def call_getter(g, name):
+def call_getter(g, name, flag_rep=None):
     """one getter of a grid object -> ('arr', ndarray) | ('hash', str); raises what the library raises"""
     sv = g.get_spherical_voronoi()
     if name == "array":
-        return "arr", np.array(g.get_grid_as_array(only_upper=False), dtype=np.float64)
+        return "arr", np.array(g.get_grid_as_array(only_upper=rep_flag(False, flag_rep)), dtype=np.float64)
     if name == "upper":
-        return "arr", np.array(g.get_grid_as_array(only_upper=True), dtype=np.float64)
+        return "arr", np.array(g.get_grid_as_array(only_upper=rep_flag(True, flag_rep)), dtype=np.float64)
     if name == "volumes":
-        return "hash", hb(np.asarray(sv.get_voronoi_volumes(), dtype=np.float64))
+        if flag_rep is None:
+            return "hash", hb(np.asarray(sv.get_voronoi_volumes(), dtype=np.float64))
+        return "hash", hb(np.asarray(sv.get_voronoi_volumes(approx=rep_flag(False, flag_rep)), dtype=np.float64))
     if name == "volumesApprox":
-        return "hash", hb(np.asarray(sv.get_voronoi_volumes(approx=True), dtype=np.float64))
+        return "hash", hb(np.asarray(sv.get_voronoi_volumes(approx=rep_flag(True, flag_rep)), dtype=np.float64))
     if name == "hulls":
         hulls = sv.get_convex_hulls()
         return "hash", hb(*[x for h in hulls for x in (np.asarray(h.points), float(h.area), float(h.volume),
@@ -232,11 +343,13 @@ class Impl:
             if t == "divide":
                 P.divide_edges()
                 return {"unit": None}
+            N = rep_int(op["N"], op_rep(op, "N"))
+            proj = rep_flag(op["proj"], op_rep(op, "proj"))
             if t == "nodes":
-                return {"pts": np.array(P.get_nodes(N=op["N"], projection=op["proj"]), dtype=np.float64)}
-            return {"pts": np.array(P.get_half_of_hypercube(projection=op["proj"], N=op["N"]), dtype=np.float64)}
+                return {"pts": np.array(P.get_nodes(N=N, projection=proj), dtype=np.float64)}
+            return {"pts": np.array(P.get_half_of_hypercube(projection=proj, N=N), dtype=np.float64)}
         if t == "grid":
-            g = factory_create(op["alg"], op["N"])
+            g = factory_create(rep_str(op["alg"], op_rep(op, "alg")), rep_int(op["N"], op_rep(op, "N")), dim=DIM[op["alg"]])
             self.grids.append(g)
             return {"handle": len(self.grids) - 1, "created": np.array(g.grid, dtype=np.float64)}
         if t == "gen":
@@ -244,11 +357,11 @@ class Impl:
             # Voronoi construction would be too slow
             from molgri.space import rotobj
             cls = {"randomS": rotobj.RandomSRotations, "randomQ": rotobj.RandomQRotations}[op["alg"]]
-            return {"unit": None, "created": np.array(cls(N=op["N"])._gen_grid(), dtype=np.float64)}
+            return {"unit": None, "created": np.array(cls(N=rep_int(op["N"], op_rep(op, "N")))._gen_grid(), dtype=np.float64)}
         if t == "get":
             if op["h"] >= len(self.grids):
                 return {"err": "other:NoObject"}
-            kind, v = call_getter(self.grids[op["h"]], op["g"])
+            kind, v = call_getter(self.grids[op["h"]], op["g"], op_rep(op, "flag"))
             return {"out": hb(v), "arr": v} if kind == "arr" else {"out": v}
         if t == "regen":
             if op["h"] >= len(self.grids):
@@ -819,7 +932,7 @@ def ref_history(qs, policy, salt):
             if policy == 1:
                 perturb()
             ops.append({"t": t, "h": npoly[0] - 1, "N": N, "proj": proj})
-    return {"r0": [salt % 1000, policy], "ops": ops}
+    return {"r0": [salt % 1000, policy], "ops": assign_reps(rnd, ops)}
 
 
 def internal_point_counts(limit=20000, maxn=6):
@@ -859,7 +972,9 @@ def collision_histories(sizes):
              {"t": "grid", "alg": "randomS", "N": 9}, {"t": "get", "h": 2, "g": "volumesApprox"}]
     big = [{"t": "gen", "alg": a, "N": n} for n in sizes for a in ("randomS", "randomQ")]
     after = [{"t": "regen", "h": 0}, {"t": "get", "h": 0, "g": "volumesApprox"}, {"t": "regen", "h": 1}, {"t": "get", "h": 1, "g": "volumes"}]
-    return [{"r0": [7, 0], "ops": big + small + after}, {"r0": [8, 0], "ops": small + big + after}]
+    import random
+    rnd = random.Random("C08-collision")
+    return [{"r0": [7, 0], "ops": assign_reps(rnd, big + small + after)}, {"r0": [8, 0], "ops": assign_reps(rnd, small + big + after)}]
 
 
 def exec_process_history(h, op_limit):
@@ -1256,23 +1371,28 @@ def shrink(h, focus, key, expected, op_limit, max_runs=30, max_s=25.0):
 # oracle: prefix stability
 # ------------------------------------------------------------------------------------------------------------------
 def gen_only(alg, N):
-    """the grid array of the factory object without the Voronoi construction (same _gen_grid code path)"""
+    """the grid array of the factory object without the Voronoi construction (same _gen_grid code path; the object is
+    built by its own constructor)"""
     from molgri.space import rotobj
     cls = {"ico": rotobj.IcoRotations, "cube3D": rotobj.Cube3DRotations, "cube4D": rotobj.Cube4DRotations}[alg]
     o = cls(N=N)
     return np.array(o._gen_grid(), dtype=np.float64)
 
 
-def prefix_case(ctx, tables, alg, N, full=False):
+def prefix_case(ctx, tables, alg, N, full=False, rep=None):
     """N-point grid of a polytope algorithm against the complete reference grids of the levels above"""
+    rep = rep or {}
+    case = {"kind": "prefix", "alg": alg, "N": N, "full": full, "rep": rep}
+    ctx.branch(f"rep:int:{rep.get('N') or 'int'}")
     try:
         with core.quiet(), time_limit(ctx.op_limit):
-            a = np.array(factory_create(alg, N).grid, dtype=np.float64) if full else gen_only(alg, N)
+            Nr = rep_int(N, rep.get("N"))
+            a = np.array(factory_create(rep_str(alg, rep.get("alg")), Nr, dim=DIM[alg]).grid, dtype=np.float64) if full else gen_only(alg, Nr)
     except OpTimeout:
-        ctx.fail("C08:timeout", f"creation of {alg}_{N} did not return", {"kind": "prefix", "alg": alg, "N": N, "full": full})
+        ctx.fail("C08:timeout", f"creation of {alg}_{N} did not return", case)
         return
     except Exception as e:
-        ctx.fail(f"C08:prefix:{alg}", f"creation of {alg}_{N} raised {core.errname(e)}", {"kind": "prefix", "alg": alg, "N": N, "full": full})
+        ctx.fail(f"C08:prefix:{alg}", f"creation of {alg}_{N} (N as {rep.get('N') or 'int'}) raised {core.errname(e)}", case)
         return
     mine = a[:N]
     ok_levels = 0
@@ -1283,7 +1403,7 @@ def prefix_case(ctx, tables, alg, N, full=False):
         if not same_bits(mine, rows[:N]):
             bad = next(i for i in range(N) if not same_bits(mine[i], rows[i]))
             ctx.fail(f"C08:prefix:{alg}", f"{alg}_{N} is not the first {N} rows of the complete level-{lvl} grid ({len(rows)} points): "
-                     f"first differing row {bad}", {"kind": "prefix", "alg": alg, "N": N, "full": full},
+                     f"first differing row {bad}", case,
                      expected=rows[bad].tolist(), observed=mine[bad].tolist())
             return
     if ok_levels:
@@ -1301,7 +1421,7 @@ def prefix_levels(ctx, tables):
             ns = list(range(1, 11)) + sorted(ctx.rng.sample(range(11, 41), 8))    # ~0.6 s per object above 8
         for N in ns:
             ctx.count()
-            prefix_case(ctx, tables, alg, N)
+            prefix_case(ctx, tables, alg, N, rep={"N": ctx.rng.choice(INT_REPS)})
             if ctx.time_left() < 0:
                 ctx.note("prefix sweep stopped at the time budget")
                 return
@@ -1382,8 +1502,16 @@ def run(ctx):
     nh, maxops = (40, 12) if ctx.quick else (200, 40)
     hist = [{"r0": c["r0"], "ops": c["ops"]} for c in corpus if c.get("kind") == "history"]
     lm = lmax_for(ctx)
-    hist += structured_histories(ctx, pool)
-    hist += [gen_history(ctx, pool, lm, maxops, i) for i in range(nh)]
+    gen = structured_histories(ctx, pool) + [gen_history(ctx, pool, lm, maxops, i) for i in range(nh)]
+    hist += [{"r0": h["r0"], "ops": assign_reps(ctx.rng, h["ops"])} for h in gen]
+    hist += rep_sweep_histories()
+    ctx.extra_cov["argument_representations"] = {
+        "integers (N of create / get_nodes / get_half_of_hypercube / _gen_grid)": list(INT_REPS),
+        "flags (projection, only_upper, approx)": list(FLAG_REPS),
+        "algorithm names": list(STR_REPS),
+        "accepted_on_unchanged_tree": "all of them, bit-identical to the plain Python value (probed for every entry point the harness calls)",
+        "left_out": REPS_LEFT_OUT,
+        "sweep": "all families over two fixed cases (ico_13 + icosahedron getters: full product 5x4x3; cube4D_5 + hypercube getters: 5x3)"}
     lm = needed_lmax(lm, hist, CAP)
     for s in hist[:3]:
         ctx.sample(case_of(s))
@@ -1420,7 +1548,7 @@ def run(ctx):
                 p.kill()
     for c in corpus:
         if c.get("kind") == "prefix":
-            prefix_case(ctx, tables, c["alg"], c["N"], c.get("full", False))
+            prefix_case(ctx, tables, c["alg"], c["N"], c.get("full", False), c.get("rep"))
     _dbg(ctx, 'oracle done')
     if ctx.quick:
         prefix_levels(ctx, tables)
@@ -1470,6 +1598,8 @@ def _run_histories_then_refs(ctx, tables, hist, procs, mp_pool):
         ctx.branch(f"history_len_{len(h['ops']) // 10 * 10}+")
         for op, s in zip(h["ops"], ex["steps"]):
             ctx.branch("op:" + op["t"] + (":" + op["g"] if op["t"] == "get" else "") + (":" + op["alg"] if op["t"] == "grid" else ""))
+            for fld, r in (op.get("rep") or {}).items():
+                ctx.branch("rep:" + {"N": "int", "alg": "str"}.get(fld, "flag") + ":" + r)
             if op["t"] == "grid" and "created" in s["res"]:
                 created.setdefault((op["alg"], op["N"]), s["res"]["created"])
         reads = sum(1 for op in h["ops"] if op["t"] in ("get", "nodes", "half"))
@@ -1536,7 +1666,7 @@ def replay(ctx, cases):
     for c in cases:
         if c.get("kind") == "prefix":
             ctx.count()
-            prefix_case(ctx, tables, c["alg"], c["N"], c.get("full", False))
+            prefix_case(ctx, tables, c["alg"], c["N"], c.get("full", False), c.get("rep"))
         elif c.get("kind") == "prefix_pair":
             ctx.count()
             (a1, n1), (a2, n2) = c["a"], c["b"]
